@@ -219,6 +219,14 @@ Profile make_profile(const std::string& name)
         std::memcpy(p.w, w, sizeof w);
         return p;
     }
+    if (name == "rrstats") // C15 oracle B: the op list only decides what is interleaved between the forced evictions
+    {
+        p.kinds = {5};
+        int w[] = {30, 0, 35, 0, 25, 0, 0, 0, 0, 0, 0, 0, 0, 0, 0, 10};
+        std::memcpy(p.w, w, sizeof w);
+        p.caps = {{1, 2}, {1, 3}, {1, 4}, {1, 5}, {1, 6}, {1, 7}, {1, 8}};
+        return p;
+    }
     if (name == "range") // C18
     {
         int w[] = {22, 16, 6, 8, 6, 2, 10, 8, 2, 2, 1, 1, 5, 5, 1, 0};
